@@ -78,3 +78,15 @@ def top_level(api):
         for e in f.get("enums", []):
             out.add(f"{f['package']}.{e['name']}")
     return out
+
+
+def implied(api, kept_keys):
+    """RPCs kept although not listed: the polling method of the operation service that a kept extended-operation RPC
+    names (google.cloud.operation_service). kept_keys: {(package, service, method)} -> the same with the implied ones added."""
+    out = set(kept_keys)
+    for f, s, m in M.all_methods(api):
+        if (f["package"], s["name"], m["name"]) in kept_keys and m.get("op_service"):
+            for f2, s2, m2 in M.all_methods(api):
+                if f2["package"] == f["package"] and s2["name"] == m["op_service"] and m2.get("op_polling"):
+                    out.add((f2["package"], s2["name"], m2["name"]))
+    return out
